@@ -1,4 +1,366 @@
 import SpVerif.Props.C05
+import SpVerif.Proofs.FileDirective
+import SpVerif.Proofs.Ack
+import SpVerif.Proofs.Prompt
+import SpVerif.Proofs.KeepAlive
+import SpVerif.Proofs.Nak
+/-!
+# C06 (part "fixed") — file-directive base class, ACK, Prompt, Keep Alive and NAK PDUs are encoded
+exactly per CCSDS 727.0-B-5 §5.2 and round-trip
+
+Property theorems only. (EOF, Finished and Metadata are in `Props/C06Var.lean`.)
+
+Layout of every file-directive PDU (727.0-B-5 §5.1, §5.2): fixed PDU header (`C05.Spec.octets`: PDU
+type 0 = file directive, segment-metadata flag 0, the direction the directive travels in, a data
+field length counting every octet after the header), directive code, directive parameters, and a
+CRC-16 over everything before it iff the CRC flag is set:
+
+* ACK (code 6, §5.2.4): `acked directive code (4 bits) | subtype (4 bits)`,
+  `condition code (4 bits) | spare (2 bits) | transaction status (2 bits)`; an ACK of a Finished
+  PDU (code 5, subtype 1) travels towards the receiver, an ACK of an EOF PDU (code 4, subtype 0)
+  towards the sender;
+* Prompt (code 9, §5.2.7): `response required (1 bit) | spare (7 bits)`, towards the receiver;
+* Keep Alive (code 12, §5.2.8): progress as one FSS field (32 bits, 64 with the large-file flag),
+  towards the sender;
+* NAK (code 8, §5.2.6): start of scope, end of scope, then the segment requests (start offset, end
+  offset) in list order, each an FSS field, towards the sender.
+-/
 namespace SpVerif.Props.C06Fixed
-theorem C06_placeholder : True := trivial
+open SpVerif SpVerif.CfdpHeader SpVerif.FileDirective
+open SpVerif.Ack SpVerif.Prompt SpVerif.KeepAlive SpVerif.Nak
+
+/-! ## header configurations -/
+
+/-- every header configuration the statement quantifies over: CRC on/off, large file on/off, mode,
+    (the caller's) direction, segmentation control, entity-ID width and sequence-number width in
+    {1,2,4,8} (both IDs of the same width) with every value of those widths -/
+def WFConf (c : PduConfig) : Prop :=
+  c.transMode < 2 ∧ c.fileFlag < 2 ∧ c.crcFlag < 2 ∧ c.direction < 2 ∧ c.segCtrl < 2 ∧
+  C05.WFField c.source ∧ C05.WFField c.seqNum ∧ C05.WFField c.dest ∧ c.dest.width = c.source.width
+
+instance (c : PduConfig) : Decidable (WFConf c) := by unfold WFConf; infer_instance
+
+/-- the header of a file directive built from configuration `c`: type 0, no segment metadata,
+    direction forced by the directive class, `dlen` octets of data field -/
+def dirHeader (c : PduConfig) (dir dlen : Nat) : PduHeader := ⟨0, 0, dlen, { c with direction := dir }⟩
+
+private theorem wf_dirHeader (c : PduConfig) (wf : WFConf c) (dir dlen : Nat) (hd : dir < 2) (hl : dlen < 65536) :
+    C05.WF (dirHeader c dir dlen) := by
+  obtain ⟨h1, h2, h3, _, h5, h6, h7, h8, h9⟩ := wf
+  exact ⟨Nat.zero_lt_two, hd, h1, h3, h2, h5, Nat.zero_lt_two, hl, h6, h7, h8, h9⟩
+
+/-- `2` iff the CRC flag is set: the octets the trailer adds to the data field -/
+def crcLen (c : PduConfig) : Nat := if c.crcFlag = 1 then 2 else 0
+
+/-- **a file-directive PDU as the standard lays it out**: header ‖ directive code ‖ parameters ‖
+    CRC-16 of all of that iff the CRC flag is set -/
+def Spec.pdu (fd : FileDirective) (params : Bytes) : Bytes :=
+  withCrc fd.header.conf.crcFlag (C05.Spec.octets fd.header ++ [u8 fd.code] ++ params)
+
+/-- domain of the base object of a directive PDU with `plen` parameter octets -/
+def WFBase (fd : FileDirective) (code dir plen : Nat) : Prop :=
+  C05.WF fd.header ∧ fd.header.pduType = 0 ∧ fd.header.segMeta = 0 ∧ fd.code = code ∧
+  fd.header.conf.direction = dir ∧ fd.header.dataFieldLen = 1 + plen + crcLen fd.header.conf
+
+instance (fd : FileDirective) (code dir plen : Nat) : Decidable (WFBase fd code dir plen) := by
+  unfold WFBase; infer_instance
+
+/-! ## the file-directive base class (`C06_directive_*`) -/
+
+/-- **directive header = PDU header ‖ directive code**, for every configuration, code octet and
+    data-field length -/
+theorem C06_directive_pack_exact (fd : FileDirective) (wf : C05.WF fd.header) (hc : fd.code < 256) :
+    fd.pack = .ok (C05.Spec.octets fd.header ++ [u8 fd.code]) := pack_spec fd wf hc
+
+/-- `header_len` is the packed length; `packet_len` is header length + data-field length -/
+theorem C06_directive_len (fd : FileDirective) (wf : C05.WF fd.header) :
+    (C05.Spec.octets fd.header ++ [u8 fd.code]).length = fd.headerLen ∧
+    fd.headerLen = fd.header.headerLen + 1 ∧
+    fd.packetLen = fd.header.headerLen + fd.header.dataFieldLen := by
+  refine ⟨specOctets_length fd wf, rfl, ?_⟩
+  simp [FileDirective.packetLen, PduHeader.packetLen]; omega
+
+/-- the constructor: data-field length = directive code octet + parameter length; refused
+    (`ValueError`) when that exceeds 65 535 or the ID widths differ -/
+theorem C06_directive_new (c : PduConfig) (code plen : Nat) :
+    FileDirective.new c code plen =
+      if 65535 < plen + 1 ∨ c.source.width ≠ c.dest.width then .error .value
+      else .ok ⟨⟨0, 0, plen + 1, c⟩, code⟩ := new_eq c code plen
+
+/-- **round trip of the base class**, whatever follows the directive code -/
+theorem C06_directive_roundtrip (fd : FileDirective) (wf : C05.WF fd.header) (hc : fd.code < 256)
+    (rest : Bytes) :
+    FileDirective.unpack (C05.Spec.octets fd.header ++ [u8 fd.code] ++ rest) = .ok fd ∧ fd.beq fd = true :=
+  ⟨unpack_spec fd wf hc rest, beq_refl fd⟩
+
+theorem C06_directive_documented (raw : Bytes) : Documented (FileDirective.unpack raw) :=
+  unpack_documented raw
+
+/-- a buffer that ends before the directive code is refused with `ValueError` -/
+theorem C06_directive_short (raw : Bytes) (h : PduHeader) (hu : PduHeader.unpack raw = .ok h)
+    (hl : raw.length ≤ h.headerLen) : FileDirective.unpack raw = .error .value := unpack_short raw h hu hl
+
+/-- the parameter-length setter keeps `data field = parameters + 1` and refuses more than 65 534 -/
+theorem C06_directive_set_param_len (fd : FileDirective) (n : Nat) :
+    fd.setParamLen n = if 65535 < n + 1 then .error .value
+      else .ok { fd with header := { fd.header with dataFieldLen := n + 1 } } := setParamLen_eq fd n
+
+/-- **`parse_fss_field`**: 4 octets, or 8 with the large-file flag, big-endian, index advanced by
+    the width; `ValueError` when the buffer is too short -/
+theorem C06_directive_parse_fss (fd : FileDirective) (raw : Bytes) (i : Nat) :
+    fd.parseFss raw i =
+      if raw.length < i + fssWidth fd.header.conf.fileFlag then .error .value
+      else .ok (i + fssWidth fd.header.conf.fileFlag,
+                beNat (slice raw i (i + fssWidth fd.header.conf.fileFlag))) := parseFss_eq fd raw i
+
+/-- an FSS value of the selected width is read back exactly, for every value of the full
+    32- / 64-bit range -/
+theorem C06_directive_parse_fss_roundtrip (fd : FileDirective) (pre rest : Bytes) (v : Nat)
+    (hv : v < 256 ^ fssWidth fd.header.conf.fileFlag) :
+    fd.parseFss (pre ++ beBytes (fssWidth fd.header.conf.fileFlag) v ++ rest) pre.length =
+      .ok (pre.length + fssWidth fd.header.conf.fileFlag, v) := parseFss_spec fd pre rest v hv
+
+/-- `_verify_file_len` refuses only sizes above 2^64 (large) / 2^32 (normal); note that 2^w itself
+    passes and is stopped by `struct.pack` (`C06_directive_fss_overflow`) -/
+theorem C06_directive_verify_file_len (fd : FileDirective) (size : Int) :
+    fd.verifyFileLen size =
+      if (fd.header.conf.fileFlag = 1 ∧ size > 18446744073709551616) ∨
+         (fd.header.conf.fileFlag = 0 ∧ size > 4294967296) then .error .value else .ok () :=
+  verifyFileLen_eq fd size
+
+/-- **`struct.pack` of an FSS value never truncates**: it fails exactly for values outside
+    `[0, 256^w)` and yields the `w` big-endian octets otherwise -/
+theorem C06_directive_fss_overflow (w : Nat) (v : Int) :
+    ((v < 0 ∨ 256 ^ w ≤ v.toNat) → packInt w v = .error .struct) ∧
+    (0 ≤ v → v.toNat < 256 ^ w → packInt w v = .ok (beBytes w v.toNat)) := by
+  constructor
+  · rintro (h | h)
+    · exact packInt_neg w v h
+    · by_cases h0 : v < 0
+      · exact packInt_neg w v h0
+      · exact packInt_big w v (by omega) h
+  · intro h0 h1
+    exact packInt_fits w v ⟨h0, h1⟩
+
+/-- what every directive decoder does first: complete description of the accepted buffers -/
+theorem C06_directive_prelude (data : Bytes) (fd : FileDirective) (p : Bytes) :
+    prelude data = .ok (fd, p) ↔
+      (PduHeader.unpack data = .ok fd.header ∧ idx data fd.header.headerLen = .ok fd.code ∧
+        fd.packetLen ≤ data.length ∧
+        (fd.header.conf.crcFlag = 1 → Crc.crc16 (data.take fd.packetLen) = 0) ∧
+        p = data.take fd.paramsEnd) := prelude_ok_iff data fd p
+
+/-! ### shared machinery for the four kinds -/
+
+private theorem spec_pdu_eq (fd : FileDirective) (P : Bytes) :
+    Spec.pdu fd P = withCrc fd.header.conf.crcFlag (specOctets fd ++ P) := rfl
+
+/-- what the common prelude returns on a laid-out PDU, and its length -/
+private theorem prelude_pdu (fd : FileDirective) (code dir : Nat) (P rest : Bytes)
+    (wf : WFBase fd code dir P.length) (hc : code < 256) :
+    prelude (Spec.pdu fd P ++ rest) = .ok (fd, specOctets fd ++ P) ∧
+    (Spec.pdu fd P).length = fd.packetLen := by
+  obtain ⟨w1, _, _, w4, _, w6⟩ := wf
+  rw [spec_pdu_eq]
+  exact prelude_spec fd w1 (by omega) P rest (by simpa [crcLen] using w6)
+
+private theorem idx_params (fd : FileDirective) (wf : C05.WF fd.header) (P : Bytes) (k : Nat) :
+    idx (specOctets fd ++ P) (fd.headerLen + k) = idx P k := by
+  rw [← specOctets_length fd wf]; exact idx_after _ _ _
+
+private theorem slice_params (fd : FileDirective) (wf : C05.WF fd.header) (P : Bytes) (s e : Nat) :
+    slice (specOctets fd ++ P) (fd.headerLen + s) (fd.headerLen + e) = slice P s e := by
+  rw [← specOctets_length fd wf]; exact slice_after _ _ _ _
+
+private theorem drop_params (fd : FileDirective) (wf : C05.WF fd.header) (P : Bytes) (k : Nat) :
+    (specOctets fd ++ P).drop (fd.headerLen + k) = P.drop k := by
+  rw [← specOctets_length fd wf]; exact drop_after _ _ _
+
+private theorem pdu_len (fd : FileDirective) (code dir : Nat) (P : Bytes) (wf : WFBase fd code dir P.length) :
+    (Spec.pdu fd P).length = fd.packetLen ∧
+    fd.header.dataFieldLen = (Spec.pdu fd P).length - fd.header.headerLen ∧
+    fd.header.dataFieldLen = fd.packetLen - fd.header.headerLen ∧
+    (Spec.pdu fd P).length = fd.header.headerLen + 1 + P.length + crcLen fd.header.conf := by
+  obtain ⟨w1, _, _, _, _, w6⟩ := wf
+  have hs := specOctets_length fd w1
+  have hhl : fd.headerLen = fd.header.headerLen + 1 := rfl
+  have hpl : fd.packetLen = fd.header.dataFieldLen + fd.header.headerLen := rfl
+  have : (Spec.pdu fd P).length = fd.header.headerLen + 1 + P.length + crcLen fd.header.conf := by
+    rw [spec_pdu_eq]
+    unfold withCrc crcLen
+    split
+    · simp only [List.length_append, hs, Crc.crcTrailer, Crc.be16, List.length_cons, List.length_nil]; omega
+    · simp only [List.length_append, hs]; omega
+  omega
+
+/-- CRC clause: with the flag the PDU ends in the CRC-16 of everything before it (so the CRC over
+    the whole PDU is zero); without the flag there is no trailer -/
+private theorem pdu_crc (fd : FileDirective) (P : Bytes) :
+    (fd.header.conf.crcFlag = 1 →
+      Spec.pdu fd P = (C05.Spec.octets fd.header ++ [u8 fd.code] ++ P)
+        ++ Crc.crcTrailer (C05.Spec.octets fd.header ++ [u8 fd.code] ++ P) ∧
+      Crc.crc16 (Spec.pdu fd P) = 0) ∧
+    (fd.header.conf.crcFlag ≠ 1 → Spec.pdu fd P = C05.Spec.octets fd.header ++ [u8 fd.code] ++ P) := by
+  constructor
+  · intro h
+    have : Spec.pdu fd P = (C05.Spec.octets fd.header ++ [u8 fd.code] ++ P)
+        ++ Crc.crcTrailer (C05.Spec.octets fd.header ++ [u8 fd.code] ++ P) := by
+      simp [Spec.pdu, withCrc, h]
+    exact ⟨this, by rw [this]; exact Crc.crc16_residue _⟩
+  · intro h
+    simp [Spec.pdu, withCrc, h]
+
+/-! ## ACK (`C06_ack_*`) -/
+
+/-- valid ACK PDUs: the acknowledged directive is EOF (4, subtype 0, towards the sender) or Finished
+    (5, subtype 1, towards the receiver), a 4-bit condition code (every member of `ConditionCode`
+    except the `NO_CONDITION_FIELD = -1` marker), every `TransactionStatus`, any header configuration -/
+def WFAck (a : Ack) : Prop :=
+  (a.ackedCode = 4 ∨ a.ackedCode = 5) ∧ a.subtype = (if a.ackedCode = 5 then 1 else 0) ∧
+  0 ≤ a.cond ∧ a.cond < 16 ∧ a.status < 4 ∧
+  WFBase a.fd 6 (if a.ackedCode = 5 then 0 else 1) 2
+
+instance (a : Ack) : Decidable (WFAck a) := by unfold WFAck; infer_instance
+
+/-- the two parameter octets of 727.0-B-5 §5.2.4 -/
+def Spec.ackParams (a : Ack) : Bytes :=
+  [u8 (a.ackedCode * 16 + a.subtype), u8 (a.cond.toNat * 16 + a.status)]
+
+def Spec.ack (a : Ack) : Bytes := Spec.pdu a.fd (Spec.ackParams a)
+
+private theorem byteOf_lin (c : Int) (s : Nat) (h0 : 0 ≤ c) (h : c.toNat * 16 + s < 256) :
+    byteOf (c * 16 + (s : Int)) = .ok (u8 (c.toNat * 16 + s)) := by
+  obtain ⟨n, rfl⟩ := Int.eq_ofNat_of_zero_le h0
+  simp only [Int.toNat_natCast] at h ⊢
+  have g : 0 ≤ (n : Int) * 16 + (s : Int) ∧ (n : Int) * 16 + (s : Int) < 256 := by omega
+  have e : ((n : Int) * 16 + (s : Int)).toNat = n * 16 + s := by omega
+  simp only [byteOf, g, and_self, ↓reduceIte, e]
+
+/-- the constructor accepts every header configuration and parameter set, forces the direction and
+    the subtype code, and yields a valid PDU -/
+theorem C06_ack_new (c : PduConfig) (wf : WFConf c) (acked : Nat) (ha : acked = 4 ∨ acked = 5)
+    (cond : Int) (status : Nat) :
+    ∃ a, Ack.new c acked cond status = .ok a ∧ a.ackedCode = acked ∧ a.cond = cond ∧ a.status = status ∧
+      a.fd.header.conf = { c with direction := if acked = 5 then 0 else 1 } ∧
+      (0 ≤ cond → cond < 16 → status < 4 → WFAck a) := by
+  rw [Ack.new_eq]
+  have g : ¬ ((acked ≠ 5 ∧ acked ≠ 4) ∨ c.source.width ≠ c.dest.width) := by
+    have := wf.2.2.2.2.2.2.2.2; omega
+  rw [if_neg g]
+  refine ⟨_, rfl, rfl, rfl, rfl, rfl, ?_⟩
+  intro h0 h1 h2
+  refine ⟨by omega, rfl, h0, h1, h2, ?_, rfl, rfl, rfl, rfl, ?_⟩
+  · apply wf_dirHeader c wf
+    · split <;> omega
+    · split <;> omega
+  · simp only [crcLen]; split <;> omega
+
+/-- only EOF and Finished PDUs can be acknowledged: any other directive code is refused (`ValueError`) -/
+theorem C06_ack_refuse_code (c : PduConfig) (acked : Nat) (cond : Int) (status : Nat)
+    (h : acked ≠ 4 ∧ acked ≠ 5) : Ack.new c acked cond status = .error .value := by
+  rw [Ack.new_eq, if_pos (Or.inl ⟨h.2, h.1⟩)]
+
+/-- **pack = standard layout** for every valid ACK PDU in every header configuration -/
+theorem C06_ack_pack_exact (a : Ack) (wf : WFAck a) : a.pack = .ok (Spec.ack a) := by
+  obtain ⟨h1, h2, h3, h4, h5, w1, _, _, w4, _, _⟩ := wf
+  unfold Ack.pack
+  rw [pack_spec a.fd w1 (by omega), byteOfN_ok (by split at h2 <;> omega : a.ackedCode * 16 + a.subtype < 256),
+    byteOf_lin a.cond a.status h3 (by omega)]
+  simp only [bind, Except.bind, pure, Except.pure, Spec.ack, Spec.pdu, Spec.ackParams, specOctets]
+
+/-- **length clauses**: packed length = `packet_len`; data-field length = octets after the header
+    = `packet_len` − header length; 2 parameter octets (+2 with CRC) -/
+theorem C06_ack_len (a : Ack) (wf : WFAck a) :
+    (Spec.ack a).length = a.packetLen ∧
+    a.fd.header.dataFieldLen = (Spec.ack a).length - a.fd.header.headerLen ∧
+    a.fd.header.dataFieldLen = a.packetLen - a.fd.header.headerLen ∧
+    (Spec.ack a).length = a.fd.header.headerLen + 1 + 2 + crcLen a.fd.header.conf :=
+  pdu_len a.fd 6 _ (Spec.ackParams a) wf.2.2.2.2.2
+
+/-- **CRC clause**: trailer = CRC-16 of everything before it iff the flag is set -/
+theorem C06_ack_crc (a : Ack) :
+    (a.fd.header.conf.crcFlag = 1 →
+      Spec.ack a = (C05.Spec.octets a.fd.header ++ [u8 a.fd.code] ++ Spec.ackParams a)
+        ++ Crc.crcTrailer (C05.Spec.octets a.fd.header ++ [u8 a.fd.code] ++ Spec.ackParams a) ∧
+      Crc.crc16 (Spec.ack a) = 0) ∧
+    (a.fd.header.conf.crcFlag ≠ 1 →
+      Spec.ack a = C05.Spec.octets a.fd.header ++ [u8 a.fd.code] ++ Spec.ackParams a) :=
+  pdu_crc a.fd (Spec.ackParams a)
+
+private theorem idx_two0 (x y : UInt8) : idx [x, y] 0 = .ok x.toNat := rfl
+private theorem idx_two1 (x y : UInt8) : idx [x, y] 1 = .ok y.toNat := rfl
+private theorem ack_ar (x s : Nat) (hs : s < 16) (hx : x < 16) :
+    (x * 16 + s) % 256 / 16 % 16 = x ∧ (x * 16 + s) % 256 % 16 = s := by omega
+private theorem ack_ar2 (x s : Nat) (hs : s < 4) (hx : x < 16) :
+    (x * 16 + s) % 256 / 16 % 16 = x ∧ (x * 16 + s) % 256 % 4 = s := by omega
+
+/-- **round trip**: decoding the packed PDU — alone or followed by any further octets — returns
+    the identical PDU (same header, same four parameters), for every valid PDU and configuration -/
+theorem C06_ack_roundtrip (a : Ack) (wf : WFAck a) (rest : Bytes) :
+    Ack.unpack (Spec.ack a ++ rest) = .ok a := by
+  obtain ⟨h1, h2, h3, h4, h5, wb⟩ := wf
+  obtain ⟨hp, _⟩ := prelude_pdu a.fd 6 _ (Spec.ackParams a) rest wb (by omega)
+  have w1 := wb.1
+  rw [Ack.unpack_eq, Spec.ack, hp]
+  show Ack.parse (a.fd, specOctets a.fd ++ Spec.ackParams a) = _
+  unfold Ack.parse
+  have hl : ¬ a.fd.headerLen + 2 > (specOctets a.fd ++ Spec.ackParams a).length := by
+    simp [specOctets_length a.fd w1, Spec.ackParams]
+  have i0 := idx_params a.fd w1 (Spec.ackParams a) 0
+  have i1 := idx_params a.fd w1 (Spec.ackParams a) 1
+  simp only [Nat.add_zero] at i0
+  obtain ⟨n, hn⟩ := Int.eq_ofNat_of_zero_le h3
+  have hn16 : n < 16 := by omega
+  have hs16 : a.subtype < 16 := by split at h2 <;> omega
+  have ha16 : a.ackedCode < 16 := by omega
+  simp only [hl, ↓reduceIte, i0, i1, bind, Except.bind, pure, Except.pure]
+  simp only [Spec.ackParams, idx_two0, idx_two1, u8_toNat, hn, Int.toNat_natCast,
+    (ack_ar a.ackedCode a.subtype hs16 ha16).1, (ack_ar a.ackedCode a.subtype hs16 ha16).2,
+    (ack_ar2 n a.status h5 hn16).1, (ack_ar2 n a.status h5 hn16).2]
+  cases a
+  simp only at hn
+  simp only [hn]
+
+/-- **equality and re-pack identity**: the decoded PDU compares equal to the original under `==`
+    (both ways) and packs to the same octets -/
+theorem C06_ack_eq_repack (a : Ack) (wf : WFAck a) (rest : Bytes) :
+    ∃ a', (a.pack >>= fun b => Ack.unpack (b ++ rest)) = .ok a' ∧ a' = a ∧
+      a.beq a' = true ∧ a'.beq a = true ∧ a'.pack = a.pack := by
+  refine ⟨a, ?_, rfl, ?_, ?_, rfl⟩
+  · rw [C06_ack_pack_exact a wf]; exact C06_ack_roundtrip a wf rest
+  all_goals simp [Ack.beq, beq_refl]
+
+/-- `ConditionCode.NO_CONDITION_FIELD` (−1), or any negative condition code, cannot be packed:
+    `ValueError`, never a wrapped-around octet -/
+theorem C06_ack_no_condition_field (a : Ack) (wf : C05.WF a.fd.header) (hc : a.fd.code < 256)
+    (h : a.cond < 0) (hs : a.status < 16) : a.pack = .error .value := by
+  unfold Ack.pack
+  rw [pack_spec a.fd wf hc]
+  have g : ¬ (0 ≤ a.cond * 16 + (a.status : Int) ∧ a.cond * 16 + (a.status : Int) < 256) := by omega
+  unfold byteOfN
+  split <;> simp only [bind, Except.bind, byteOf, g, ↓reduceIte]
+
+/-- the decoder fails, for any octet string whatever, only with `ValueError`,
+    `UnsupportedCfdpVersion` or `InvalidCrc` -/
+theorem C06_ack_documented (d : Bytes) : Documented (Ack.unpack d) := Ack.unpack_documented d
+
+/-- what acceptance means: the buffer holds the whole declared PDU, the CRC-16 over exactly the
+    declared PDU is zero when the flag is set, and the result depends on the declared PDU only
+    (trailing octets are neither read nor required) -/
+theorem C06_ack_accept_sound (d : Bytes) (a : Ack) (h : Ack.unpack d = .ok a) (rest : Bytes) :
+    a.packetLen ≤ d.length ∧ (a.fd.header.conf.crcFlag = 1 → Crc.crc16 (d.take a.packetLen) = 0) ∧
+    Ack.unpack (d.take a.packetLen ++ rest) = .ok a := by
+  obtain ⟨_, _, _, h4, h5⟩ := Ack.unpack_inv d a h
+  exact ⟨h4, h5, Ack.unpack_take d a h rest⟩
+
+-- non-vacuity: ACK of a Finished PDU, FILE_CHECKSUM_FAILURE, TERMINATED, CRC, large file, 2-octet IDs
+private def exAck : Ack :=
+  ⟨⟨⟨0, 0, 5, ⟨⟨2, 0x0102⟩, ⟨2, 0x0304⟩, ⟨1, 0x77⟩, 1, 1, 1, 0, 0⟩⟩, 6⟩, 5, 1, 5, 2⟩
+example : WFAck exAck := by decide
+example : WFConf ⟨⟨2, 0x0102⟩, ⟨2, 0x0304⟩, ⟨1, 0x77⟩, 1, 1, 1, 1, 0⟩ := by decide
+example : Ack.new ⟨⟨2, 0x0102⟩, ⟨2, 0x0304⟩, ⟨1, 0x77⟩, 1, 1, 1, 1, 0⟩ 5 5 2 = .ok exAck := by rfl
+example : C05.Spec.octets exAck.fd.header ++ [u8 exAck.fd.code] ++ Spec.ackParams exAck
+    = [0x27, 0, 5, 0x10, 1, 2, 0x77, 3, 4, 6, 0x51, 0x52] := by decide
+example : Ack.new PduConfig.default 7 0 0 = .error .value := by rfl
+
 end SpVerif.Props.C06Fixed
